@@ -164,6 +164,7 @@ type c19Monitor struct {
 	infl   *big.Rat
 	supply sdk.Int
 	kinds  map[string]bool
+	evInfl string // the inflation the Mint event of the current block reported ("" = no Mint event)
 }
 
 var yearNs = big.NewInt(int64(365 * 24 * time.Hour))
@@ -189,6 +190,18 @@ func (m *c19Monitor) AfterCommit(r *kernel.Run) {
 	}
 	m.evals++
 	T := c.Now
+	// the Mint event of this block reports the inflation too: same state (nothing burns or mints after the minter's
+	// BeginBlock in this profile), so the same figure
+	if m.evInfl != "" {
+		m.evals++
+		if ev, err := sdk.NewDecFromStr(m.evInfl); err == nil {
+			if !ev.Equal(out.Inflation) {
+				r.Violate("C19", "event-vs-query", "mint-event-inflation-differs-from-query", "at %s the Mint event of the block reports inflation %s, the Inflation query on the state of that block %s", T.Format(time.RFC3339Nano), ev, out.Inflation)
+			}
+			r.Stats.Inc("probe.mint_event_inflation_compared")
+		}
+		m.evInfl = ""
+	}
 	infl := new(big.Rat).SetFrac(out.Inflation.BigInt(), bigE18)
 	// zero before the start and in no-minting periods
 	pi2 := m.model.PeriodIndexAt(T)
@@ -215,6 +228,10 @@ func (m *c19Monitor) AfterBegin(r *kernel.Run, resp abci.ResponseBeginBlock) {
 	if c.Halted != nil {
 		reportHalt(r)
 		return
+	}
+	m.evInfl = ""
+	for _, ev := range kernel.EventAttrs(resp.Events, "chain4energy.c4echain.cfeminter.Mint") {
+		m.evInfl = trimQuotes(ev["inflation"])
 	}
 	if !m.have {
 		return
